@@ -407,7 +407,7 @@ pub fn run(ctx: &mut Ctx) -> Result<(), Violation> {
     ctx.stage("repo-formula-files-and-mutations", false, r)?;
 
     // (3b) random soups, mutated valid formulas, decorated valid formulas
-    let cases = ctx.tier.pick(150_000, 6_000_000);
+    let cases = ctx.tier.cases(150_000, 6_000_000);
     let r = par_random(ctx, "random-texts", cases, 200, |tape, st| {
         let mut t = Tape::new(tape);
         let text: String = match t.choose(4) {
